@@ -7,9 +7,11 @@
 package c03
 
 import (
+	"bytes"
 	"context"
 	"fmt"
 	"math/rand"
+	"os"
 	"reflect"
 	"strings"
 	"sync"
@@ -44,7 +46,7 @@ type Report struct {
 const CodeF3 = -103
 
 type Step struct {
-	Op      string   // inject | call
+	Op      string   // inject | call | render (the application draws a frame)
 	Reports []Report `json:",omitempty"` // inject: sent as one chunk
 	What    string   `json:",omitempty"` // call: bg fg color cpr clipboard; reply timing in Reply
 	Reply   string   `json:",omitempty"` // call: "ontime" | "late" | "never" | "twice" | "early" | "slow" (25 ms, inside the time-out)
@@ -58,6 +60,9 @@ type Step struct {
 	Row, Col   int      `json:",omitempty"`
 	InjectAtMs int      `json:",omitempty"`
 	Wants      []string `json:",omitempty"`
+	// render: Rows/Cols != "" = the size the terminal reports from now on when asked
+	// (decimal strings: they may exceed every integer type); the frame is a resize
+	Rows, Cols string `json:",omitempty"`
 }
 
 type Scn struct {
@@ -71,6 +76,19 @@ type Scn struct {
 	// (for 60 ms), so the queue is full and the input loop waits behind it
 	QSize int  `json:",omitempty"`
 	Stall bool `json:",omitempty"`
+	// Ahead: user input the terminal sends while the library's start-up queries are
+	// outstanding (type-ahead): its events are the first ones of the judged stream
+	Ahead []Ahead `json:",omitempty"`
+	// XTWinOps: the application asks the terminal for its size (VAXIS_FORCE_XTWINOPS)
+	XTWinOps bool `json:",omitempty"`
+}
+
+// Ahead: reports sent just before the terminal's Before-th reply to the start-up
+// queries (0 = before the first one) or just before its primary device attributes
+// reply (the last one), whichever comes first.
+type Ahead struct {
+	Before  int
+	Reports []Report
 }
 
 // Answer: what a query call returned and the values the terminal has
@@ -179,15 +197,37 @@ func Execute(sc *Scn) *Result {
 	sess.ScrubEnv()
 	caps := responder.FromMask(sc.Mask, sc.Alt)
 	con := fakecon.New(80, 24)
-	resp := responder.New(caps, 80, 24, con.Inject)
+	// type-ahead: sent between the replies to the start-up queries
+	ahead, nreply := append([]Ahead(nil), sc.Ahead...), 0
+	resp := responder.New(caps, 80, 24, func(b []byte) {
+		if len(ahead) > 0 {
+			da1 := bytes.HasPrefix(b, []byte("\x1b[?")) && bytes.HasSuffix(b, []byte("c"))
+			for len(ahead) > 0 && (da1 || ahead[0].Before <= nreply) {
+				var t []byte
+				for _, r := range ahead[0].Reports {
+					t = append(t, unhex(r.Hex)...)
+				}
+				con.Inject(t)
+				ahead = ahead[1:]
+			}
+			nreply++
+		}
+		con.Inject(b)
+	})
 	resp.Clipboard = "clip-content"
 	var rmu sync.Mutex
 	replyMode := "ontime"
 	var lastBg string
+	var sizeRows, sizeCols string // != "": the size the terminal reports when asked (render step)
 	con.OnWrite = func(p []byte) {
 		rmu.Lock()
 		mode := replyMode
+		rows, cols := sizeRows, sizeCols
 		rmu.Unlock()
+		if rows != "" && bytes.Contains(p, []byte("\x1b[18t")) {
+			con.Inject([]byte("\x1b[4;600;800t\x1b[8;" + rows + ";" + cols + "t"))
+			return
+		}
 		switch mode {
 		case "never":
 			return
@@ -212,7 +252,11 @@ func Execute(sc *Scn) *Result {
 		resp.OnWrite(p)
 	}
 	_ = lastBg
+	if sc.XTWinOps {
+		os.Setenv("VAXIS_FORCE_XTWINOPS", "1")
+	}
 	vx, err := vaxis.New(vaxis.Options{WithConsole: con, NoSignals: true, EventQueueSize: sc.QSize})
+	os.Unsetenv("VAXIS_FORCE_XTWINOPS")
 	if err != nil {
 		res.Note = "start: " + err.Error()
 		return res
@@ -265,11 +309,41 @@ func Execute(sc *Scn) *Result {
 		res.Note = "stalled right after start-up"
 		return res
 	}
-	emu.Lock()
-	res.Events = res.Events[:0]
-	emu.Unlock()
+	if len(sc.Ahead) == 0 {
+		emu.Lock()
+		res.Events = res.Events[:0]
+		emu.Unlock()
+	}
+steps:
 	for _, st := range sc.Steps {
 		switch st.Op {
+		case "render":
+			// the application answers the Redraw event of a size report by drawing
+			// (the reports sent so far have been read: a sentinel round trip)
+			if !sync1() {
+				res.Stalled = true
+				res.Note = "stalled before a frame"
+				return res
+			}
+			func() {
+				defer func() {
+					if p := recover(); p != nil {
+						res.Panic = fmt.Sprintf("panic: Render after a size report: %v", p)
+					}
+				}()
+				if st.Rows != "" {
+					rmu.Lock()
+					sizeRows, sizeCols = st.Rows, st.Cols
+					rmu.Unlock()
+					vx.Resize() // the window changed (what SIGWINCH announces)
+				}
+				vx.Render()
+				vx.Window().Fill(vaxis.Cell{Character: vaxis.Character{Grapheme: "x", Width: 1}})
+				vx.Render()
+			}()
+			if res.Panic != "" {
+				break steps
+			}
 		case "inject":
 			var b []byte
 			esc := false
@@ -753,5 +827,115 @@ func CprTiming(rng *rand.Rand) *Scn {
 		}
 		sc.Steps = append(sc.Steps, Step{Op: "inject", Reports: tail})
 	}
+	return sc
+}
+
+// ---- input during start-up; absurd size reports ------------------------------------
+
+func ta(r Report) Report { r.Cls = "typeahead"; return r }
+
+// aheadReports: user input with one meaning whatever queries are outstanding (no F3
+// chord: CSI 1;m R is also a cursor position report; no lone ESC: a key only after silence);
+// keys with an exact code outside a paste, any key inside one.
+func aheadReports(rng *rand.Rand) []Report {
+	var rs []Report
+	for k := 1 + rng.Intn(4); k > 0; k-- {
+		switch x := rng.Intn(12); {
+		case x < 5:
+			for n := 1 + rng.Intn(3); n > 0; n-- {
+				rs = append(rs, ta(plain('a'+rune(rng.Intn(26)))))
+			}
+		case x < 6:
+			rs = append(rs, ta(key("世", 0x4e16)))
+		case x < 8:
+			rs = append(rs, randMouse(rng))
+		case x < 9:
+			rs = append(rs, Report{K: "focusin", Hex: hx("\x1b[I")})
+		case x < 10:
+			rs = append(rs, Report{K: "focusout", Hex: hx("\x1b[O")})
+		default:
+			rs = append(rs, Report{K: "pastestart", Hex: hx("\x1b[200~")})
+			for p := rng.Intn(4); p > 0; p-- {
+				rs = append(rs, ta(randKey(rng)))
+			}
+			rs = append(rs, Report{K: "pasteend", Hex: hx("\x1b[201~")})
+		}
+	}
+	return rs
+}
+
+// TypeAhead: the user types (clicks, pastes, the window gains focus) while the program
+// starts: the reports reach the program before / between the terminal's replies to the
+// start-up queries. Every one of them is user input: one event each, in stream order,
+// ahead of what is typed later; event queues of 1..4 events and the default one.
+func TypeAhead(rng *rand.Rand) *Scn {
+	sc := &Scn{Kind: "typeahead", Mask: rng.Intn(1 << 15), Alt: rng.Intn(2) == 0, QSize: []int{0, 0, 1, 2, 3, 4}[rng.Intn(6)]}
+	before := 0
+	for n := 1 + rng.Intn(3); n > 0; n-- {
+		if rng.Intn(3) == 0 {
+			before = 99 // just before the primary device attributes reply
+		} else {
+			before += rng.Intn(5)
+		}
+		sc.Ahead = append(sc.Ahead, Ahead{Before: before, Reports: aheadReports(rng)})
+	}
+	// what is typed later starts with a digit: no report of the start-up phase means the same event
+	later := append([]Report{plain('0' + rune(rng.Intn(10)))}, plainKeys(rng, rng.Intn(3))...)
+	if rng.Intn(2) == 0 {
+		later = append(later, randMouse(rng))
+	}
+	sc.Steps = append(sc.Steps, Step{Op: "inject", Reports: later})
+	return sc
+}
+
+// TypeAheadEach: "hi" typed right before the reply which ends start-up, per queue size
+// and for the poorest and the richest terminal.
+func TypeAheadEach() []*Scn {
+	var out []*Scn
+	for _, q := range []int{0, 1, 2, 3, 4} {
+		for _, mask := range []int{0, 1<<15 - 1} {
+			out = append(out, &Scn{Kind: "typeahead", Mask: mask, QSize: q,
+				Ahead: []Ahead{{Before: 99, Reports: []Report{ta(plain('h')), ta(plain('i'))}}},
+				Steps: []Step{{Op: "inject", Reports: []Report{plain('x')}}}})
+		}
+	}
+	return out
+}
+
+// SizeReports: a size report (in-band CSI 48 ; rows ; cols ; ypix ; xpix t, or the
+// CSI 8 ; rows ; cols t reply to a size request) with absurd numbers, then the
+// application draws, then keys. Only survival is judged. Every field is either small
+// (rows <= 200, columns <= 1000: the screen it describes fits in a few MB) or at least
+// 2^50 (no such screen can be allocated: the attempt fails at once instead of
+// exhausting the machine's memory); nothing in between is generated.
+func SizeReports(rng *rand.Rand) *Scn {
+	sc := &Scn{Kind: "size-report", Mask: rng.Intn(1<<15) | 1<<3, Alt: rng.Intn(2) == 0, Loose: true}
+	huge := []string{"1125899906842624", "4611686018427387904", "9223372036854775807", "99999999999999999999"}
+	rows := fmt.Sprint([]int{0, 1, 24, 200}[rng.Intn(4)])
+	cols := fmt.Sprint([]int{0, 1, 80, 1000}[rng.Intn(4)])
+	ypix, xpix := fmt.Sprint(rng.Intn(2000)), fmt.Sprint(rng.Intn(2000))
+	switch rng.Intn(5) {
+	case 0:
+		rows = huge[rng.Intn(4)]
+	case 1:
+		cols = huge[rng.Intn(4)]
+	case 2:
+		rows, cols = huge[rng.Intn(4)], huge[rng.Intn(4)]
+	case 3:
+		ypix, xpix = huge[rng.Intn(4)], huge[rng.Intn(4)]
+	}
+	if rng.Intn(3) == 0 {
+		// the reply to the size request of a drawing application (a terminal asked
+		// with CSI 18 t, eg under VAXIS_FORCE_XTWINOPS)
+		sc.XTWinOps = true
+		sc.Mask = sc.Mask&^(1<<3) | 1<<7
+		sc.Steps = append(sc.Steps, Step{Op: "render", Rows: rows, Cols: cols})
+	} else {
+		rep := 1 + rng.Intn(2)
+		sc.Steps = append(sc.Steps, Step{Op: "inject", Reports: []Report{{K: "garbage",
+			Hex: hx(strings.Repeat(fmt.Sprintf("\x1b[48;%s;%s;%s;%st", rows, cols, ypix, xpix), rep))}}})
+		sc.Steps = append(sc.Steps, Step{Op: "render"})
+	}
+	sc.Steps = append(sc.Steps, Step{Op: "inject", Reports: plainKeys(rng, 1+rng.Intn(2))})
 	return sc
 }
